@@ -46,7 +46,26 @@ HEAP_TEXT = ("TLC explores every program over the configured alphabet of the hea
              "kinds, assignments to any handle, reads anywhere) observing every handle after every step; TLC walks the state machine along each recorded "
              "program (Trace_Heap). Reads are free actions, so all placements of reads are explored and all are judged against the same read-free level-A content.")
 
+def c19():
+    t = Timer()
+    res = runner.Result("C19")
+    cfg = "c19" if Q else "quick"
+    for m in ["MC_C01", "MC_C02", "MC_C03", "MC_C04", "MC_C05", "MC_C07", "MC_C08", "MC_C09"]:
+        runner.c19_model_stage(res, "ragged", m, cfg)
+    runner.c19_model_stage(res, "heap", "MC_Heap", "c19" if Q else "C06.quick")
+    runner.c19_trace_stage(res, ["C01", "C02", "C03", "C04", "C05", "C07", "C08", "C09"], 400 if Q else 4000)
+    return runner.finish(res,
+        "The specification has no index-width variable: no level-A operator can depend on it (WidthIrrelevant by construction), so the expected outcome of every "
+        "case is the same under both configurations. Every TLC-generated case of the C01-C09 instances and every program of the heap machine is executed twice in "
+        "one process - ViewBase.set_dtype(int64) and ViewBase.set_dtype(int32), arrays built after the switch - and the two projected outcomes (values, row lengths, "
+        "dtypes, raise-vs-return) must be identical; seeded driver events are run under both widths too and the 32-bit outcomes are validated by TLC. A case that "
+        "is wrong under both configurations is charged to its own property, not to C19.",
+        "case = a C01-C09 case or heap program, executed under both widths; non-trivial as for the source property",
+        A_REGIME + ["arrays small enough for 32-bit offsets", "the configuration is switched with ViewBase.set_dtype before the arrays of a case are built"], t.s())
+
+
 CHECKS = {
+    "C19": c19,
     "C06": _heap_check("C06", "C06", 3000, 40000, HEAP_TEXT),
     "C10": _heap_check("C10", "C10", 3000, 40000, HEAP_TEXT),
     "C01": _ragged_check("C01", True, 3000, 30000,
